@@ -13,4 +13,4 @@ package rewriter
 //@ func (r RW) Do(buf []byte) []byte
 //@   property C04
 //@   ensures[rewrite] result[..] == rwSpec(r, buf[..])
-//@   ensures[alias]   result == buf || fresh(result)
+//@   ensures[alias]   result == buf || isnil(result) || fresh(result)
